@@ -636,4 +636,4 @@ def program(ctx, k):
                 "first_ops": [t[0] + ":" + str(t[1]) for t in trace[:5]]}, per_family=2)
 
 
-FAMILIES = [Family("programs", program, 40, 640, budget={"quick": 80, "thorough": 1500})]
+FAMILIES = [Family("programs", program, 160, 3200, budget={"quick": 80, "thorough": 1500})]
